@@ -61,6 +61,7 @@ type droppedSpec struct {
 type buildStats struct {
 	Drawn, Rejected, Dropped, Kept int
 	DroppedSpecs                   []droppedSpec
+	RefusedSpecs                   []droppedSpec
 	DroppedWhy                     map[string]int
 }
 
@@ -151,6 +152,11 @@ func buildDriver(e *Env, specs []PkgSpec, race bool) (string, string, []PkgSpec,
 		case strings.HasPrefix(r.why, "rejected"):
 			st.Rejected++
 			st.DroppedWhy[r.why]++
+			raw := specs[i].Raw
+			if raw == nil && specs[i].Doc != nil {
+				raw = specs[i].Doc.JSON()
+			}
+			st.RefusedSpecs = append(st.RefusedSpecs, droppedSpec{specs[i].Name, r.why, raw, specs[i].Cfg})
 		default:
 			st.Dropped++
 			st.DroppedWhy[r.why]++
@@ -335,6 +341,17 @@ func compiledMain(e *Env, check string, specs []PkgSpec, race bool, timeout time
 			}
 			r.Fail(res.Failure{Property: check, Kind: "generated-package-does-not-compile:" + strings.Join(strings.Fields(strings.TrimPrefix(ds.Why, "does not compile:"))[:min(6, len(strings.Fields(strings.TrimPrefix(ds.Why, "does not compile:"))))], " "),
 				Clause: "generated-package-does-not-compile", Detail: fmt.Sprintf("goag reported success for spec %s but the package %s", ds.Name, ds.Why),
+				Replay: map[string]any{"openapi.json": string(ds.Raw), "config.json": cfgString(ds.Cfg)}})
+		}
+	}
+	// likewise the generators only draw specs goag accepts (rows it refuses are the
+	// dialect boundary and are excluded): a refused spec means goag has stopped
+	// supporting something it supported, and nothing can be said about its behaviour
+	if check != "C18" {
+		for _, ds := range st.RefusedSpecs {
+			w := strings.Fields(strings.TrimPrefix(ds.Why, "rejected:"))
+			r.Fail(res.Failure{Property: check, Kind: "spec-of-the-dialect-refused:" + strings.Join(w[:min(8, len(w))], " "),
+				Clause: "spec-of-the-dialect-refused", Detail: fmt.Sprintf("goag refused spec %s, which is inside the dialect it is known to accept: %s", ds.Name, ds.Why),
 				Replay: map[string]any{"openapi.json": string(ds.Raw), "config.json": cfgString(ds.Cfg)}})
 		}
 	}
